@@ -311,3 +311,32 @@ if __name__ == "__main__":
         write_pyx_baseline()
     else:
         print(build_overlay(verbose=True))
+
+
+def build_mc_module(mod, repo=None):
+    """Build ONE extension module (e.g. 'mdtraj._rmsd') from the generated Cython C++ and the hand-written sources
+    with TSan instrumentation and link it against the green-thread scheduler instead of libgomp/libtsan.
+    Returns the directory holding the module (to be put in front of the overlay by overlay.install(extra=...))."""
+    repo = repo or repo_dir()
+    e = EXTENSIONS[mod]
+    sched_src = os.path.join(VERIF, "vlib", "sched", "sched.c")
+    flags = ["-O1", "-g", "--std=c++11", "-fopenmp", "-msse2", "-mssse3", "-fPIC", "-fsanitize=thread", "-DNDEBUG", "-w"]
+    objs = []
+    keys = []
+    with ThreadPoolExecutor(8) as ex:
+        res = list(ex.map(lambda s_: compile_object(repo, s_, e["inc"], [], e["lang"], e.get("macros", ()), extra=flags, tag="mc"),
+                          e["sources"]))
+    for o, k in res:
+        objs.append(o)
+        keys.append(k)
+    key = _sha("mcmod", mod, _read(sched_src), *keys)
+    out = os.path.join(CACHE, "mcmods", key[:24])
+    target = os.path.join(out, mod + sysconfig.get_config_var("EXT_SUFFIX"))
+    if not os.path.exists(target):
+        os.makedirs(out, exist_ok=True)
+        sobj = os.path.join(out, "sched.o")
+        _run(["gcc", "-c", "-O1", "-g", "-fPIC", sched_src, "-o", sobj], repo)
+        tmp = target + ".%d.tmp" % os.getpid()
+        _run(["g++", "-shared", "-o", tmp] + objs + [sobj], repo)
+        os.replace(tmp, target)
+    return out
